@@ -944,13 +944,23 @@ func (e *pathEnv) inlineNewHelper(c *ssa.CallCommon, cp *Path, idx int) *Path {
 	genv := e.prog.Env(g)
 	hasRecv := g.Signature.Recv() != nil
 	boolOnly := fi.failKind == "false"
+	// the error result itself: the caller tests and forwards it, so its value is what the failing
+	// returns produce (a nil on the other returns adds nothing to `err != nil` or `return err`)
+	errResult := idx < g.Signature.Results().Len() && isErrorType(g.Signature.Results().At(idx).Type())
 	alts := map[string]*Path{}
+	var nilAlt *Path
 	for _, b := range g.Blocks {
 		ret, ok := lastInstr(b).(*ssa.Return)
 		if !ok || idx >= len(ret.Results) {
 			continue
 		}
-		if fi.failExit[b] && !boolOnly {
+		if errResult {
+			op := retOperand(ret, idx)
+			if c, ok := op.(*ssa.Const); ok && c.IsNil() {
+				nilAlt = genv.of(op)
+				continue
+			}
+		} else if fi.failExit[b] && !boolOnly {
 			continue // the value of a failed call is not used
 		}
 		rp := genv.of(retOperand(ret, idx)).Subst(cp.Args, hasRecv)
@@ -963,7 +973,7 @@ func (e *pathEnv) inlineNewHelper(c *ssa.CallCommon, cp *Path, idx int) *Path {
 		alts[rp.String()] = rp
 	}
 	if len(alts) == 0 {
-		return nil
+		return nilAlt
 	}
 	if len(alts) == 1 {
 		for _, p := range alts {
